@@ -6,7 +6,8 @@ AlgorithmRight (per request, also for a second signature with other options on t
 controls. Binding (A): every behaviour on the real aws token (AWS SDK, SigV4 and all) in front of a KMS stand-in that speaks
 the service's JSON protocol and enforces its validation rules: remote calls in order (operation, algorithm, message type,
 outcome), key id, digest and request signature of every call, the result; a returned signature is verified (PKCS#1 v1.5,
-PSS, ECDSA) under the key; the token key as crypto.Signer for a self-signed certificate."""
+PSS, ECDSA) under the key; the token key as crypto.Signer for a self-signed certificate; whole packages (PowerShell script,
+JAR, PE, MSI) signed with each key through the standalone signing path and accepted by relic's verifier (integrity and chain)."""
 import json, os, concurrent.futures as cf
 from vlib.common import *
 from checks.C15 import _absorb
@@ -50,14 +51,16 @@ def run(t):
         raise NoVerdict(f"replayed {got} of {reps * len(g.beh)}")
     sigs = sum(o["counters"].get("result_signature", 0) for o in outs)
     x509 = sum(o["counters"].get("x509_selfsigned", 0) for o in outs)
-    if (sigs < 20 or x509 != 3) and not run.violations:
-        raise NoVerdict(f"signatures verified: {sigs}, self-signed certificates: {x509}")
+    pkgs = sum(o["counters"].get("packages_verified", 0) for o in outs)
+    if (sigs < 20 or x509 != 3 or pkgs != 12) and not run.violations:
+        raise NoVerdict(f"signatures verified: {sigs}, self-signed certificates: {x509}, packages: {pkgs}")
+    run.cov["packages_verified"] = pkgs
     run.cov["signatures_verified"] = sigs
     run.cov["rule"] = (f"all {len(g.beh)} complete behaviours of CloudKey_Gen (x{reps}) on the real aws token: key spec {{RSA_2048, ECC_NIST_P256, ECC_NIST_P384}} x key entry with / without id x "
                        "digest {SHA-1, SHA-256, SHA-384, SHA-512} x PSS (RSA) x fault of GetPublicKey {none, denied, not found, garbage public key, throttled once, internal error once, "
                        "always throttled} or of Sign {none, denied, key unavailable, throttled once, internal error once, always throttled}, and - fault-free - a second signature with another digest algorithm or padding on the same key object; compared: the service's call log "
                        "(operation, signing algorithm, message type, outcome, key id, digest bytes, SigV4 header), the result, signature verification under the service's key; "
-                       "non-trivial = more than one remote call")
+                       "whole packages (ps1, jar, PE, MSI) signed with each of the three keys and judged by relic's verifier; non-trivial = more than one remote call")
     run.cov["exhaustive"] = True
     run.assumptions += ["the service is a stand-in (harness/internal/fakekms) implementing GetPublicKey and Sign with the documented validation rules; IAM, grants, key states other than 'unavailable', multi-region keys are not modelled",
                         "the retry policy (3 attempts, which exceptions are transient) is the AWS SDK's default as cached in the module cache; the back-off delays are the SDK's own (random), not controlled",
